@@ -1476,6 +1476,15 @@ def process_template(tpl_path: str, repo: str, variant: dict | None = None) -> U
             dm2 = _DIR.match(tpl[j])
             if dm2 and dm2.group(1) == "end":
                 break
+            if dm2 and dm2.group(1) == "local":
+                # //@local <name-used-in-the-contracts> /regex with one group capturing the code's identifier/
+                lm_ = re.match(r"(\w+)\s+/((?:[^/\\]|\\.)*)/", dm2.group(2).strip())
+                if not lm_:
+                    raise ExtractError("template: bad //@local directive at line %d" % (j + 1))
+                sections.append(["local", (lm_.group(1), lm_.group(2).replace("\\/", "/")), j + 1, []])
+                cur = None
+                j += 1
+                continue
             if dm2 and dm2.group(1) in ("sig", "contract", "loop", "closure", "before", "after", "wrap", "check-before", "check-after"):
                 cur = [dm2.group(1), dm2.group(2).strip(), j + 2, []]
                 if dm2.group(1) == "sig":
@@ -1683,10 +1692,33 @@ def _gen_function(kv, sections, repo, res: UnitResult, variant) -> list:
                     return ix
         raise ExtractError("anchor lost: /%s/ (#%d) in %s" % (pat, nth, fid))
 
+    # locals named in the contracts: follow a renaming of the local in the code
+    renames = {}
+    body_txt_now = "\n".join(g.text for g in glines)
+    for sname, sarg, sline, slines in sections:
+        if sname == "local":
+            tname, pat = sarg
+            mm_ = re.search(pat, body_txt_now)
+            if mm_ and mm_.group(1) != tname:
+                renames[tname] = mm_.group(1)
+    if renames:
+        log["locals_renamed"] = dict(renames)
+
+    def _ren(text):
+        if not renames:
+            return text
+        return "".join(renames.get(tk.text, tk.text) if tk.kind == "ident" else tk.text for tk in lex(text))
+
+    def _ren_re(pat):
+        for a_, b_ in renames.items():
+            pat = re.sub(r"(?<![\w\\])%s(?!\w)" % re.escape(a_), b_, pat)
+        return pat
+    sections = [(sn, (_ren_re(sa) if sn in ("before", "after", "check-before", "check-after") else sa), sl,
+                 ([_ren(x) for x in sls] if sn not in ("sig", "local") else sls)) for sn, sa, sl, sls in sections]
     contract_lines = []
     inserts = []   # (index, position 'before'|'after-stmt', lines)
     for sname, sarg, sline, slines in sections:
-        if sname == "sig":
+        if sname in ("sig", "local"):
             continue
         if sname == "contract":
             contract_lines = _label_lines(slines, sline, "contract", fid + ".contract")
